@@ -188,3 +188,49 @@ func VerifHarness_C19_Trailing() {
 		verifAssert("trailing-comment-of-undocumented-variable-ignored", len(convs[0].Methods["Conv"].Lines) == 0)
 	}
 }
+
+// VerifHarness_C19_Group: in a grouped `type ( ... )` declaration every spec is looked at on its own: a marked
+// interface is a converter wherever it stands in the group, unmarked specs (structs, plain interfaces, aliases)
+// around it do not matter, and a marker on a non-interface spec is an error.
+func VerifHarness_C19_Group() {
+	fset := token.NewFileSet()
+	pkg := types.NewPackage("example.org/in", "in")
+	n := 2 + nondetChoice("specs", 3)
+	var specs []ast.Spec
+	marked := 0
+	markedStruct := false
+	var wantNames []string
+	for i := 0; i < n; i++ {
+		name := []string{"A", "B", "C", "D"}[i]
+		switch nondetChoice("spec.kind", 4) {
+		case 0: // plain struct
+			specs = append(specs, &ast.TypeSpec{Name: &ast.Ident{Name: name}, Type: &ast.StructType{Fields: &ast.FieldList{}}})
+		case 1: // unmarked interface with an ordinary doc comment
+			specs = append(specs, &ast.TypeSpec{Name: &ast.Ident{Name: name}, Type: &ast.InterfaceType{Methods: &ast.FieldList{}},
+				Doc: &ast.CommentGroup{List: []*ast.Comment{{Text: "// " + name + " is an ordinary interface."}}}})
+		case 2: // marked interface
+			specs = append(specs, &ast.TypeSpec{Name: &ast.Ident{Name: name}, Doc: &ast.CommentGroup{List: []*ast.Comment{{Text: "// goverter:converter"}, {Text: "// goverter:name " + name + "Conv"}}},
+				Type: &ast.InterfaceType{Methods: &ast.FieldList{List: []*ast.Field{{Names: []*ast.Ident{{Name: "Convert"}}, Type: &ast.FuncType{}, Doc: &ast.CommentGroup{List: []*ast.Comment{{Text: "// goverter:ignore X"}}}}}}}})
+			marked++
+			wantNames = append(wantNames, name)
+		default: // marked struct: not allowed
+			specs = append(specs, &ast.TypeSpec{Name: &ast.Ident{Name: name}, Doc: &ast.CommentGroup{List: []*ast.Comment{{Text: "// goverter:converter"}}}, Type: &ast.StructType{Fields: &ast.FieldList{}}})
+			markedStruct = true
+		}
+	}
+	decl := &ast.GenDecl{Tok: token.TYPE, Lparen: 1, Specs: specs}
+	convs, err := parseGenDecl(fset, pkg, decl)
+	verifReach("group")
+	if markedStruct {
+		// reported unless the scan legitimately stopped at an earlier error: any error is fine, silence is not
+		verifAssert("marker-on-a-struct-in-a-group-is-an-error", err != nil)
+		return
+	}
+	verifAssert("group-accepted", err == nil)
+	verifAssert("every-marked-interface-of-the-group-is-a-converter", len(convs) == marked)
+	for i := 0; i < len(convs) && i < len(wantNames); i++ {
+		verifAssert("converters-in-declaration-order", convs[i].InterfaceName == wantNames[i])
+		verifAssert("spec-doc-lines-kept", len(convs[i].Converter.Lines) == 2 && convs[i].Converter.Lines[1] == "name "+wantNames[i]+"Conv")
+		verifAssert("method-doc-lines-kept", len(convs[i].Methods["Convert"].Lines) == 1 && convs[i].Methods["Convert"].Lines[0] == "ignore X")
+	}
+}
